@@ -103,7 +103,13 @@ func (e *BaseParserError) FriendlyErrorMessage() string {
 	}
 	msg.WriteString("\n" + e.SourceCode() + "\n")
 	pad := strings.Repeat(" ", colStart-1)
-	msg.WriteString(pad + strings.Repeat("^", colEnd-colStart+1))
+	// A token that spans several lines (a raw string) ends on a later line,
+	// possibly in an earlier column: mark its first character only
+	width := colEnd - colStart + 1
+	if end.LineNumber() != lineNum || width < 1 {
+		width = 1
+	}
+	msg.WriteString(pad + strings.Repeat("^", width))
 	return msg.String()
 }
 
